@@ -36,7 +36,7 @@ from .geom import Geometry
 from .math import affine_from_axis, maybe_int, resolution_from_affine
 from .overlap import compute_output_geobox
 from .roi import roi_is_empty
-from .types import Resolution, SomeResolution, SomeShape, xy_
+from .types import Resolution, SomeResolution, SomeShape, resxy_, xy_
 
 # pylint: disable=import-outside-toplevel
 # pylint: disable=too-many-lines
@@ -504,16 +504,19 @@ def _extract_transform(
     except ValueError:
         # This can fail when any dimension is shorter than 2 elements
         # Figure out fallback resolution if possible and try again
-        if crs_coord is None:
-            return None
-        if (original_transform := _extract_geo_transform(crs_coord)) is None:
-            return None
+        fallback_res: Resolution
+        if gcp or _xx.encoding.get("_transform", None) is not None:
+            # labels are pixel plane coordinates (gcp and rotated geoboxes),
+            # one pixel apart on each axis, not world resolution apart
+            fallback_res = resxy_(1, 1)
+        else:
+            if crs_coord is None:
+                return None
+            if (original_transform := _extract_geo_transform(crs_coord)) is None:
+                return None
+            fallback_res = resolution_from_affine(original_transform)
         try:
-            transform = affine_from_axis(
-                _xx.values,
-                _yy.values,
-                resolution_from_affine(original_transform),
-            )
+            transform = affine_from_axis(_xx.values, _yy.values, fallback_res)
         except ValueError:
             return None
 
